@@ -162,7 +162,7 @@ class Gen:
         return ('expr', neg, terms), summed
 
     def frac(self, free, depth, avoid):
-        if depth > 0 and self.budget > 0 and not self.core and self.rng.random() < .2:
+        if depth > 0 and self.budget > 0 and self.rng.random() < .2:
             n, s1 = self.term(free, depth - 1, avoid)
             d, s2 = self.term([], depth - 1, avoid | s1 | {l for l, _ in free})
             return ('frac', n, d), s1 | s2
@@ -197,7 +197,7 @@ class Gen:
 
     def power(self, idx, depth, avoid):
         r = self.rng
-        if r.random() < .2 and not self.core:
+        if r.random() < .2:
             base, s = self.item(idx, depth, avoid)
             if depth > 0 and r.random() < .35:
                 e, s2 = self.expr([], depth - 1, avoid | s | {l for l, _ in idx})
@@ -618,7 +618,8 @@ def aligned(val, order):
 # ---------------------------------------------------------------------------------------------- core grammar: tokens for the Lean `Src` reader
 
 def src_tokens(node):
-    """prefix tokens of an AST of the core grammar (None if the tree uses other constructs)"""
+    """prefix tokens of an AST of the `Src` grammar of Model/C19Src.lean (None if the tree uses other constructs:
+    function calls, decimal numbers)"""
     def item(n):
         if n[0] == 'num':
             return ['num'] + list(n[1]) + [';'] if n[1].isdigit() and n[1].isascii() else None
@@ -629,19 +630,32 @@ def src_tokens(node):
             e = expr(n[1])
             return None if e is None else [n[0]] + e
         return None
+    def power(n):
+        if n[0] != 'pow': return item(n)
+        b = item(n[1])
+        if b is None: return None
+        if n[2][0] == 'int':
+            return ['powint'] + b + ['1' if n[2][1] < 0 else '0'] + list(str(abs(n[2][1]))) + [';']
+        e = expr(n[2][1])
+        return None if e is None else ['powexpr'] + b + e
     def term(n):
         if n[0] != 'term': return None
         out = []
         for k, f in enumerate(n[1]):
-            i = item(f)
+            i = power(f)
             if i is None: return None
             out += (['prod'] if k == 0 else ['pcons']) + i
         return out + ['pnil']
+    def frac(n):
+        if n[0] == 'frac':
+            a, b = term(n[1]), term(n[2])
+            return None if a is None or b is None else ['frac'] + a + b
+        return term(n)
     def expr(n):
         if n[0] != 'expr': return None
         out = []
         for k, (sub, t) in enumerate(n[2]):
-            tt = term(t)
+            tt = frac(t)
             if tt is None: return None
             out += (['sum', '1' if n[1] else '0'] if k == 0 else ['tcons', '1' if sub else '0']) + tt
         return out + ['tnil']
